@@ -345,7 +345,8 @@ def conf_case(draw, tier):
     return {"k": k, "obs": obs, "sim": sim,
             "given": given,
             "container": draw(st.sampled_from(["list", "int64", "bool",
-                                               "float"]))}
+                                               "float", "uint8", "int8",
+                                               "series"]))}
 
 
 def conf_oracle(case):
@@ -368,6 +369,12 @@ def conf_oracle(case):
         o, s = np.array(obs, dtype=np.int64), np.array(sim, dtype=np.int64)
     elif cont == "float":
         o, s = np.array(obs, dtype=np.float64), np.array(sim, dtype=np.float64)
+    elif cont in ("uint8", "int8") and max(present) <= 127:
+        # category codes of a one-byte raster
+        o, s = np.array(obs, dtype=cont), np.array(sim, dtype=cont)
+    elif cont == "series":
+        o = pd.Series(obs, index=np.arange(len(obs))[::-1])
+        s = pd.Series(sim, index=np.arange(len(sim)) + 5)
     elif cont == "bool" and max(present) <= 1:
         o, s = np.array(obs, dtype=bool), np.array(sim, dtype=bool)
     else:
